@@ -93,6 +93,10 @@ def get_engine(h):
     if _ENG is None:
         _ENG = Engine()
     e = _ENG
+    if not hasattr(e, "base_models"):
+        e.base_models = dict(e.models)
+    e.models = dict(e.base_models)
+    e.models.update(h.models)
     e.loop_bound = h.loop_bound
     e.solver.set("timeout", h.timeout_ms)
     e.violations = []
@@ -174,6 +178,8 @@ def worker_task(task):
     except SolverUnknown as e:
         res["error"] = "solver-unknown: " + str(e)
     except BaseException as e:  # interpreter bug
+        if os.environ.get("PYSYM_TRACE"):
+            traceback.print_exc()
         res["error"] = "internal: %s: %s @ %s" % (type(e).__name__, e, _where())
     return res
 
